@@ -18,6 +18,8 @@ def mk_settings(codes):
     for c in codes:
         if c.startswith('['):
             out.append(c)
+        elif c.startswith('raw:'):
+            out.append(c[4:])          # a settings string handed over as it is (';' - separators only, for instance)
         elif c.startswith('name:'):
             out.append(c[5:])
         elif c.startswith('enum:'):
@@ -109,6 +111,22 @@ def apply_op(v, op):
     if k == 'simplify':
         v.simplify()
         return v
+    if k == 'read':
+        # every kind of query, no mutation: must be transparent for whatever follows (lazily computed flags, remembered
+        # answers)
+        str(v)
+        v.to_str(optimize=False)
+        format(v, '')
+        v.is_formatting_valid()
+        v.is_formatting_parsable()
+        v.is_optimizable()
+        if len(v):
+            v.settings_at(0)
+            v.ansi_settings_at(len(v) - 1)
+        v.find_settings(AnsiSetting('1'))
+        v == v.copy()
+        AnsiStr(v)
+        return v
     if k == 'reparse':
         return AnsiString(str(v))
     if k == 'copy':
@@ -152,6 +170,10 @@ def codes_of_spec(spec):
     from .env import AnsiFormat
     if spec.startswith('['):
         return [spec[1:]]
+    if spec.startswith('raw:'):
+        if spec[4:].strip('; ') == '':
+            return []                  # separators only: no setting at all
+        raise HarnessError('raw settings text %r has no model' % spec)
     if spec.startswith('enum:') or spec.startswith('nest:'):
         return [str(x) for x in AnsiFormat[spec[5:]].ansi_settings]
     if spec.startswith('int:'):
